@@ -16,18 +16,6 @@ local macro "pin_tac" d:ident : tactic =>
     | (simp only [$d:ident]; ac_rfl)
     | (simp [$d:ident, BitVec.add_comm, BitVec.and_comm, BitVec.or_comm, BitVec.xor_comm, BitVec.mul_comm, Bool.and_comm, Bool.or_comm]))
 
-theorem init_a0_pin (xruntime_Parallelism : BitVec 32) :
-    Gen.CacheMisc.init_a0 xruntime_Parallelism = xruntime_Parallelism := by pin_tac Gen.CacheMisc.init_a0
-
-theorem init_a1_pin (parallelism : BitVec 32) :
-    Gen.CacheMisc.init_a1 parallelism = (BitVec.setWidth 64 (OtterVerif.Gen.Xmath.RoundUpPowerOf2 parallelism)) := by pin_tac Gen.CacheMisc.init_a1
-
-theorem init_a2_pin (roundedParallelism : BitVec 64) :
-    Gen.CacheMisc.init_a2 roundedParallelism = (BitVec.setWidth 32 ((128#64) * roundedParallelism)) := by pin_tac Gen.CacheMisc.init_a2
-
-theorem init_a3_pin (roundedParallelism : BitVec 64) :
-    Gen.CacheMisc.init_a3 roundedParallelism = ((4#64) * roundedParallelism) := by pin_tac Gen.CacheMisc.init_a3
-
 theorem newCache_c0_pin (withStats : Bool) :
     Gen.CacheMisc.newCache_c0 withStats = withStats := by pin_tac Gen.CacheMisc.newCache_c0
 
@@ -100,11 +88,7 @@ theorem cache_IsWeighted_r0_pin (c_isWeighted : Bool) :
 theorem cache_IsRecordingStats_r0_pin (c_withStats : Bool) :
     Gen.CacheMisc.cache_IsRecordingStats_r0 c_withStats = c_withStats := by pin_tac Gen.CacheMisc.cache_IsRecordingStats_r0
 
-theorem siteParams_pin : Gen.CacheMisc.siteParams = [("init_a0", ["xruntime_Parallelism"]),
-  ("init_a1", ["parallelism"]),
-  ("init_a2", ["roundedParallelism"]),
-  ("init_a3", ["roundedParallelism"]),
-  ("newCache_c0", ["withStats"]),
+theorem siteParams_pin : Gen.CacheMisc.siteParams = [("newCache_c0", ["withStats"]),
   ("newCache_c1", ["withStats"]),
   ("newCache_c2", ["ok"]),
   ("newCache_c3", ["withStats"]),
@@ -129,8 +113,7 @@ theorem siteParams_pin : Gen.CacheMisc.siteParams = [("init_a0", ["xruntime_Para
   ("cache_IsWeighted_r0", ["c_isWeighted"]),
   ("cache_IsRecordingStats_r0", ["c_withStats"])] := by rfl
 
-theorem shape_pin : Gen.CacheMisc.shape = [("init", [0, 0, 4, 0]),
-  ("zeroValue", [0, 0, 0, 1]),
+theorem shape_pin : Gen.CacheMisc.shape = [("zeroValue", [0, 0, 0, 1]),
   ("newCache", [11, 0, 21, 1]),
   ("cache_EstimatedSize", [0, 0, 0, 1]),
   ("cache_IsWeighted", [0, 0, 0, 1]),
